@@ -11,6 +11,11 @@ PROP = dict(
                     "(thorough) random histories over 2..5 identifiers; after each operation every identifier is read back and "
                     "compared with its shadow, the source of a copy is compared byte-wise with its snapshot, the block that held "
                     "replaced long content must be freed (ASan poison state), and LeakSanitizer runs at process exit.  "
+                    "C++ leg also drives libmpt++ nodes (node::create(), mpt_node_new() as provided by libmpt++; plain node = 12 byte inline "
+                    "name, extended = 84) as two more storages of the grid/histories and in 2880 dedicated cases (36 name lengths "
+                    "0..24, 82..89, 255, 300, 4000 x 4 ways of naming x 5 name changes x 4 ways the node goes away: mpt_node_destroy, "
+                    "mpt_node_clear of the parent, mpt_node_destroy of the grandparent, ~node + free), each ending with the release "
+                    "witness and an in-case LeakSanitizer pass.  "
                     "Node lists: 4k (quick) / 60k (thorough) PRNG lists of 3..8 nodes with equal and near-equal names (shorter/longer by one, "
                     "first/last byte changed, binary, unset) searched with mpt_node_locate from every start node, pos -3..3, six name "
                     "variants, name handed over NUL-terminated / as front part of a longer string / in an exact-size block / with "
@@ -32,7 +37,11 @@ PROP = dict(
               dict(name="c16_cxx", memcheck=500, src=["c16_cxx.cpp"], libs=["mpt++", "mptio", "mptplot", "mptcore"], batch=256, lsan=True,
                    floors={"identifier::set_name": 5000, "identifier::operator=": 2000, "identifier::identifier(copy)": 500,
                            "identifier::equal": 10000, "item::operator=": 300, "transition:long>short": 500,
-                           "monitor:release-witness": 1000, "monitor:readback": 20000})],
+                           "monitor:release-witness": 1000, "monitor:readback": 20000,
+                           "cxx-node:released-out-of-line-name": 3000, "cxx-node:released-plain-stored-13..16": 800,
+                           "cxx-node:destroy:mpt_node_destroy": 1000, "cxx-node:destroy:parent-clear": 1000,
+                           "cxx-node:destroy:parent-destroy": 1000, "cxx-node:destroy:destructor": 1000,
+                           "monitor:node-leak-check": 2000})],
         rule=("case = (a) one grid point: operation (set-after-set | copy | clear | copy from NULL | self-copy | copy-construct) x "
               "storage x previous content class x [source storage x] new content class, content classes = unset, text of length "
               "0, 1, cap-3..cap+2, 255, 256, 65533, 65534 (limit), 65535/65536 (must be refused), text with embedded NUL, binary "
@@ -44,7 +53,7 @@ PROP = dict(
               "resp. of the operation list with content prefix"),
         exhaustive_note=("all (storage, previous content class, new content class) triples for set-after-set (16 x 17 x 22), all "
                          "(target storage, target content, source storage, source content) for copy (16 x 17 x 16 x 17), all "
-                         "(storage, content) x {clear, copy from NULL, self-copy, copy-construct}; C++ leg likewise over 8 storages"),
+                         "(storage, content) x {clear, copy from NULL, self-copy, copy-construct}; C++ leg likewise over 8 storages (6 identifier objects + plain and extended libmpt++ node); all 2880 C++ node cases"),
         assumptions=SAN_BASE + ["an identifier object is at least sizeof(struct identifier) bytes (smaller totals are not passed to mpt_identifier_init)",
                                 "mpt_identifier_set(id, NULL, n) yields n bytes of caller-filled non-text content (source comment)",
                                 "what an identifier without text compares equal to by name is not decided (only run under the sanitizers)",
